@@ -336,8 +336,15 @@ func (s *socket) MaybeUpgrade(transport transports.Transport) {
 	var upgradeTimeoutTimer, checkIntervalTimer atomic.Pointer[utils.Timer]
 	// the candidate's probe has been answered (and the 'check' tick releases the pending poll)
 	var probed atomic.Bool
+	// the attempt ends exactly once: the handlers below run on different goroutines (the candidate's
+	// reader, the timers, whoever closes the session), and an upgrade packet processed in the instant
+	// the upgrade timeout fires must not switch the session to a transport the timeout is closing
+	var finished atomic.Bool
 
 	onPacket = func(datas ...any) {
+		if finished.Load() {
+			return
+		}
 		data := datas[0].(*packet.Packet)
 		sb := new(strings.Builder)
 		io.Copy(sb, data.Data)
@@ -350,6 +357,8 @@ func (s *socket) MaybeUpgrade(transport transports.Transport) {
 			utils.ClearInterval(checkIntervalTimer.Load())
 			checkIntervalTimer.Store(utils.SetInterval(check, 100*time.Millisecond))
 
+		} else if !finished.CompareAndSwap(false, true) {
+			return
 		} else if packet.UPGRADE == data.Type && probed.Load() && s.ReadyState() != "closed" {
 			socket_log.Debug("got upgrade packet - upgrading")
 			s.upgraded.Store(true)
@@ -400,6 +409,9 @@ func (s *socket) MaybeUpgrade(transport transports.Transport) {
 	}
 
 	onError = func(err ...any) {
+		if !finished.CompareAndSwap(false, true) {
+			return
+		}
 		socket_log.Debug("client did not complete upgrade - %v", err[0])
 		cleanup()
 		// Close is idempotent; the variable is shared by handlers that run on
@@ -417,6 +429,9 @@ func (s *socket) MaybeUpgrade(transport transports.Transport) {
 
 	// set transport upgrade timer
 	upgradeTimeoutTimer.Store(utils.SetTimeout(func() {
+		if !finished.CompareAndSwap(false, true) {
+			return
+		}
 		socket_log.Debug("client did not complete upgrade - closing transport")
 		cleanup()
 		if transport.ReadyState() == "open" {
